@@ -419,6 +419,9 @@ def _ext_call(ev, dotted, args, kwargs, fr, node):
         # a read-only view of a mapping: every read sees the mapping itself (writes through the view raise TypeError, and the
         # analysis never needs to write through it)
         return args[0]
+    if dotted == 'functools.partial' and args:
+        # partial(f, *a, **kw): a callable that calls f with the frozen arguments in front (applied by Evaluator.apply)
+        return T.raw_op('PARTIAL', args[0], T.tup(list(args[1:])), T.dct([(T.const(k_), v_) for k_, v_ in sorted(kwargs.items())]))
     if dotted == 'itertools.repeat' and len(args) == 1 and not kwargs:
         return T.raw_op('REPEAT', args[0])
     if dotted in ('weakref.ref', 'weakref.proxy', 'weakref.ReferenceType') and len(args) == 1 and not kwargs:
